@@ -192,3 +192,44 @@ Theorem log_floor_lower_bound :
   forall e floor : R, (0 < floor -> ln floor <= ln (Rmax e floor))%R.
 Proof. exact log_floor_lower_bound_l. Qed.
 Print Assumptions log_floor_lower_bound.
+
+(* ---- tie to the source: energy block, per-filter post-processing and DFT size, symbolically
+   executed from _compute_frame / __init__ by gen/stft_scalar.py (coq/gen/StftR.v) ---- *)
+From Verif Require Import Stft.ScalarTie gen.StftR.
+Theorem energy_model_is_source :
+  forall (xs : list R) (Lr floor : R) (use_power use_log : bool),
+  g_frame_energy (sumsq xs) Lr floor use_power use_log = np_energy xs Lr floor use_power use_log.
+Proof. exact frame_energy_tie_l. Qed.
+Print Assumptions energy_model_is_source.
+(* a quiet frame (root) mean square at or below the floor logs to exactly log(floor) *)
+Theorem energy_floor_quiet :
+  forall (xs : list R) (Lr floor : R) (use_power : bool),
+  ((if use_power then sumsq xs / Lr else sqrt (sumsq xs / Lr)) <= floor)%R ->
+  np_energy xs Lr floor use_power true = ln floor.
+Proof. exact energy_floor_quiet_l. Qed.
+Print Assumptions energy_floor_quiet.
+(* what is stored for a filter: twice the walk's sum for real banks (the half spectrum carries
+   half of the full-spectrum sum: stft_real_coeff_is_twice_half), log-floored when use_log *)
+Theorem coeff_post_model_is_source :
+  forall (val floor : R) (is_real use_log : bool),
+  g_frame_post val floor is_real use_log = coeff_post val floor is_real use_log.
+Proof. exact frame_post_tie_l. Qed.
+Print Assumptions coeff_post_model_is_source.
+Theorem coeff_post_floor :
+  forall (val floor : R) (is_real : bool), (0 < floor)%R -> (ln floor <= coeff_post val floor is_real true)%R.
+Proof. exact coeff_post_floor_l. Qed.
+Print Assumptions coeff_post_floor.
+(* DFT size: frame_length, or with pad_to_nearest_power_of_two the SMALLEST power of two >= frame_length *)
+Theorem dft_size_model_is_source :
+  forall (L : Z) (pad : bool), g_init_dft L pad = dft_size L pad /\ g_torch_dft L = dft_size L true.
+Proof. exact dft_size_tie_l. Qed.
+Print Assumptions dft_size_model_is_source.
+Theorem dft_size_pad_spec :
+  forall L : Z, (0 < L)%Z ->
+  let D := dft_size L true in
+  ((exists k, 0 <= k /\ D = 2 ^ k) /\ L <= D /\ (forall k, 0 <= k -> L <= 2 ^ k -> D <= 2 ^ k) /\ D < 2 * L)%Z.
+Proof. exact dft_size_pad_spec_l. Qed.
+Print Assumptions dft_size_pad_spec.
+Theorem dft_size_pow2_fixed : forall k : Z, (0 <= k -> dft_size (2 ^ k) true = 2 ^ k)%Z.
+Proof. exact dft_size_pow2_fixed_l. Qed.
+Print Assumptions dft_size_pow2_fixed.
